@@ -283,6 +283,39 @@ def two_poly_axes(chk, M, N):
         val = paths[0].value
         val = as_array(val).reshape(-1)[0] if isinstance(val, np.ndarray) else val
         chk.vc(f"{tag}.evaluate", paths[0].pc, Eq(simp(val), simp(Q2(y, ys))), func=f"{fnq}.changeBasis")
+    # rank 3 (Array, z, pz): a derivative along the LAST axis leaves the order of the other axes alone (axis bookkeeping beyond rank 2)
+    tag = f"M{M}N{N}.rank3.derivative-along-last-axis"
+    rowsA = [space_poly("z", True, axis_size("z", True, M, N), t) for t in ("a", "c")]
+    rowsB = [space_poly("pz", True, axis_size("pz", True, M, N), t) for t in ("b", "d")]
+
+    def body3(it):
+        grid = make_grid(it, M, N)
+        nz = as_array(it.call_method(grid, "getCompactCoordinates", [True, "z"], {})).reshape(-1)
+        npz = as_array(it.call_method(grid, "getCompactCoordinates", [True, "pz"], {})).reshape(-1)
+        c = as_array([[[A_(u) * B_(v) for v in npz] for u in nz] for A_, B_ in zip(rowsA, rowsB)])
+        poly = it.instantiate(ClassRef("polynomial", "Polynomial"), [c, grid, ("Array", "Cardinal", "Cardinal"), ("Array", "z", "pz"), (False, True, True)], {})
+        d = it.call_method(poly, "derivative", [2], {})
+        return (as_array(d.attrs["coefficients"]), nz, npz), {}
+    allp = enumerate_paths(body3, externals=EXT)
+    paths = [p for p in allp if p.outcome == "return"]
+    chk.path_count += len(paths)
+    raised = [p for p in allp if p.outcome == "raise"]
+    if not paths and raised and len(raised) == len(allp):
+        # every path ends in an exception (on a fully concrete grid): the operation fails where the property says it returns the derivative
+        chk.vc(f"{tag}.no-exception", [], sp.false, func=f"{fnq}.derivative", meta={"exception": raised[0].exc.cls})
+    elif len(paths) != 1:
+        chk.undecided.append(f"{tag}: {len(paths)} returning paths")
+    else:
+        dc, nz, npz = paths[0].value
+        ok = dc.shape == (2, len(nz), len(npz))
+        chk.vc(f"{tag}.shape", [], sym.to_sym(bool(ok)), func=f"{fnq}.derivative")
+        if ok:
+            goals = []
+            for r_, (A_, B_) in enumerate(zip(rowsA, rowsB)):
+                for i_, u in enumerate(nz):
+                    for j_, v in enumerate(npz):
+                        goals.append(Eq(simp(dc[r_, i_, j_]), simp(A_(u) * sp.diff(B_(y), y).subs(y, v))))
+            chk.vc(f"{tag}.exact", [], And(*goals), func=f"{fnq}.derivative")
     chk.bounded.append({"what": "rank-2 evaluate with two polynomial axes", "bound": f"axes (z, pz), M={M}, N={N}, all endpoint combinations, three basis pairs", "held": True})
 
 
